@@ -1,12 +1,12 @@
 package main
 
 import (
-	"golang.org/x/tools/go/ssa"
 	"encoding/json"
 	"fmt"
 	"go/ast"
 	"go/token"
 	"go/types"
+	"golang.org/x/tools/go/ssa"
 	"os"
 	"path/filepath"
 	"regexp"
@@ -45,19 +45,19 @@ var unpairedOK = map[string]string{
 	"types.DecodeSlice": "generic helper (modelled)", "types.DecodeSliceCast": "generic helper (modelled)", "types.DecodeSliceFn": "generic helper (modelled)",
 	"types.DecodePtr": "generic helper (modelled)", "types.DecodePtrCast": "generic helper (modelled)",
 	"types.(EncoderFunc).EncodeTo": "adapter", "types.(DecoderFunc).DecodeFrom": "adapter",
-	"types.(SpendPolicy).encodePolicy":          "inlined into SpendPolicy.EncodeTo for the mirror",
-	"types.(V2TransactionSemantics).EncodeTo":   "hash preimage only (C12)",
-	"types.(txnSansSigs).EncodeTo":              "hash preimage only (C12)",
-	"gateway.withV1Encoder": "transport helper", "gateway.withV2Encoder": "transport helper", "gateway.withV1Decoder": "transport helper", "gateway.withV2Decoder": "transport helper",
+	"types.(SpendPolicy).encodePolicy":        "inlined into SpendPolicy.EncodeTo for the mirror",
+	"types.(V2TransactionSemantics).EncodeTo": "hash preimage only (C12)",
+	"types.(txnSansSigs).EncodeTo":            "hash preimage only (C12)",
+	"gateway.withV1Encoder":                   "transport helper", "gateway.withV2Encoder": "transport helper", "gateway.withV1Decoder": "transport helper", "gateway.withV2Decoder": "transport helper",
 	"rhp/v4.withEncoder": "transport helper", "rhp/v4.withDecoder": "transport helper",
 }
 
 // documented asymmetries: pair key -> reason. The pair is still checked for field completeness.
 var mirrorAsym = map[string]string{
-	"types|V1Currency|#Code":      "variable-length big-endian form: encoder trims leading zeros (bytes), decoder reads u64 length then right-aligned raw bytes; checked by the dedicated rule v1currency",
-	"types|V1SiafundOutput|#Code": "siafund value travels as a V1Currency and a dummy claim-start follows; kinds agree (checked), paths differ by design",
-	"rhp/v3|Account|#Code":        "account encoded via UnlockKey form",
-	"rhp/v2|RPCReadResponse|#Code": "decoder reuses caller-provided buffers; length-prefixed bytes read by hand",
+	"types|V1Currency|#Code":                "variable-length big-endian form: encoder trims leading zeros (bytes), decoder reads u64 length then right-aligned raw bytes; checked by the dedicated rule v1currency",
+	"types|V1SiafundOutput|#Code":           "siafund value travels as a V1Currency and a dummy claim-start follows; kinds agree (checked), paths differ by design",
+	"rhp/v3|Account|#Code":                  "account encoded via UnlockKey form",
+	"rhp/v2|RPCReadResponse|#Code":          "decoder reuses caller-provided buffers; length-prefixed bytes read by hand",
 	"rhp/v3|RPCExecuteProgramRequest|#Code": "instruction framing: specifier + length-prefixed body per instruction, decoder dispatches through instructionForID (registry checked under C19)",
 }
 
@@ -507,11 +507,11 @@ func progBySuffix(progs map[string]*WireProg, key string) *WireProg {
 
 // fields not transmitted, each one named symbol with its reason
 var notTransmitted = map[string]string{
-	"types.StateElement.shared":                 "ownership marker; decoded values own fresh memory",
-	"consensus.State.Network":                   "documented as not encoded (network parameters are configuration)",
-	"rhp/v3.rpcResponse.err":                    "handled through the explicit error flag",
-	"rhp/v2.rpcResponse.err":                    "handled through the explicit error flag",
-	"types.V1Block.V2":                          "the v1 block form has no v2 data by definition (V2Block adds it)",
+	"types.StateElement.shared": "ownership marker; decoded values own fresh memory",
+	"consensus.State.Network":   "documented as not encoded (network parameters are configuration)",
+	"rhp/v3.rpcResponse.err":    "handled through the explicit error flag",
+	"rhp/v2.rpcResponse.err":    "handled through the explicit error flag",
+	"types.V1Block.V2":          "the v1 block form has no v2 data by definition (V2Block adds it)",
 }
 
 func runC11(c *Ctx) {
@@ -865,10 +865,10 @@ func decTagMap(p *Program, dec *WireProg, em map[string]string) map[string][]str
 // ---------- layout reference ----------
 
 type layoutEntry struct {
-	Key   string   `json:"key"`   // function name (exported anchors) or content key
-	Name  string   `json:"name"`  // function the program was extracted from when the reference was made
-	ByName bool    `json:"by_name"`
-	Lines []string `json:"lines"`
+	Key    string   `json:"key"`  // function name (exported anchors) or content key
+	Name   string   `json:"name"` // function the program was extracted from when the reference was made
+	ByName bool     `json:"by_name"`
+	Lines  []string `json:"lines"`
 }
 
 func pinnedProgram(wp *WireProg) bool {
